@@ -14,6 +14,9 @@ from .. import astutil as au
 from ..tables import rule, TIME_CARRIERS
 from . import analysis
 
+rule("C19.r", "time points and interval boundaries are compared as time stamps (pandas aligns zone and resolution), never through their raw "
+              "integer representation (.asi8, .view('i8'), .astype('int64') of a time index), whose unit differs between indices", floor=1,
+     props=["C19", "C02", "C08"])
 rule("C19.a", "every interval-membership test over time points is half open (>= start and < end)", floor=4, props=["C19", "C08", "C20"])
 rule("C19.b", "the overlap guard precedes the assignment into the grid (overlapping intervals are rejected, not overwritten)", floor=1)
 rule("C19.c", "a sub-grid takes each per-step attribute from the same attribute of the reference grid through one selector; the "
@@ -261,9 +264,30 @@ rule("C02.i", "interval data brought to the grid keeps its gaps: a step that lie
               "beyond its end", floor=1, props=["C02", "C19"])
 
 
-@analysis("intervals", ["C19.a", "C19.b", "C19.c", "C19.e", "C19.g", "C15.g", "C20.h", "C11.i", "C19.h", "C20.i", "C15.h", "C19.i", "C19.j", "C19.k", "C14.i", "C19.m", "C02.i", "C19.n", "C19.o", "C13.n", "C16.q"])
+@analysis("intervals", ["C19.a", "C19.b", "C19.c", "C19.e", "C19.g", "C15.g", "C20.h", "C11.i", "C19.h", "C20.i", "C15.h", "C19.i", "C19.j", "C19.k", "C14.i", "C19.m", "C02.i", "C19.n", "C19.o", "C13.n", "C16.q", "C19.r"])
 def run(ctx):
     p = ctx.p
+    # ---------------------------------------------------------------- C19.r no comparison of raw integer stamps
+    INT_VIEWS = ("asi8",)
+    n_cmp = 0
+    for fn_ in sorted(p.all_functions(), key=lambda f: f.qualname):
+        hits = []
+        for x in au.walk_local(fn_.node, include_self=False):
+            if isinstance(x, ast.Attribute) and x.attr in INT_VIEWS:
+                hits.append(x)
+            elif isinstance(x, ast.Call) and au.method_name(x) in ("view", "astype") and x.args and (
+                    au.const_str(x.args[0]) in ("i8", "int64", "<i8") or au.U(x.args[0]) in ("np.int64", "numpy.int64", "'int64'")) \
+                    and isinstance(x.func, ast.Attribute) and any(w in au.U(x.func.value) for w in ("timepoints", "to_datetime", "DatetimeIndex", "date_range")):
+                hits.append(x)
+            if isinstance(x, ast.Compare):
+                n_cmp += 1
+        for h in hits:
+            ctx.ob("C19.r", fn_, "time stamps as integers: %s" % au.short(h, 60), False,
+                   "%s takes the integer representation of time stamps; it is counted in the unit of *that* index (ns, s, D ...), so a comparison "
+                   "with the integers of another index is only right when both happen to have the same unit: interval boundaries given as "
+                   "datetime64[D] / [s] arrays lie 1e9 x below the grid's ns values and select nothing (0 of 192 points got a value), "
+                   "and overlaps are accepted silently" % au.short(h, 60), node=h)
+    ctx.ob("C19.r", "package", "time points are compared as time stamps", True, ok_detail="%d comparisons in the package, none on integer views of time stamps" % n_cmp)
     zc = _zone_cases(ctx)
     ctx.require(sum(zc.values()) >= 5, "fewer than 5 zone attachments (tz_localize) found", rules=['C19.g', 'C15.g', 'C20.h', 'C11.i', 'C19.h', 'C20.i', 'C15.h', 'C19.k'])
     n_a = n_e = 0
